@@ -267,3 +267,104 @@ func VerifH_C15_handler() {
 		vpReach("mark-confirmed-after-stop-returned")
 	}
 }
+
+// VerifH_C15_ticks: the interval trigger, in virtual time.  With a
+// rebroadcast interval of one minute and no block events, accepted
+// transactions are rebroadcast (parents first) by every tick until they are
+// reported confirmed, never between ticks, and never afterwards.
+func VerifH_C15_ticks() {
+	vpOpt("clock", 1)
+	vpOpt("timed", 1)
+	vpOpt("timers", 16)
+	parent := &wire.MsgTx{Version: 2, LockTime: 1, TxIn: []*wire.TxIn{{PreviousOutPoint: wire.OutPoint{Index: 11}}},
+		TxOut: []*wire.TxOut{{Value: 10, PkScript: []byte{0x51}}}}
+	child := &wire.MsgTx{Version: 2, LockTime: 2, TxIn: []*wire.TxIn{{PreviousOutPoint: wire.OutPoint{Hash: parent.TxHash(), Index: 0}}},
+		TxOut: []*wire.TxOut{{Value: 9, PkScript: []byte{0x52}}}}
+	txs := []*wire.MsgTx{parent, child}
+	hashes := []chainhash.Hash{parent.TxHash(), child.TxHash()}
+	var calls []chainhash.Hash
+	ntfns := make(chan blockntfns.BlockNtfn)
+	reject := map[chainhash.Hash]bool{}
+	b := NewBroadcaster(&Config{
+		Broadcast: func(tx *wire.MsgTx) error {
+			calls = append(calls, tx.TxHash())
+			if reject[tx.TxHash()] {
+				return &BroadcastError{Code: Invalid, Reason: "invalid"}
+			}
+			return nil
+		},
+		SubscribeBlocks: func() (*blockntfns.Subscription, error) {
+			return &blockntfns.Subscription{Notifications: ntfns, Cancel: func() {}}, nil
+		},
+		RebroadcastInterval: time.Minute,
+	})
+	if err := b.Start(); err != nil {
+		vpAssert(false, "start-ok")
+		return
+	}
+	pending := map[chainhash.Hash]bool{}
+	// submit the child first or the parent first, or only one of them; one may be rejected
+	order := vpRange("submitOrder", 0, 3) // 0: parent, child  1: child, parent  2: parent only  3: child only
+	var seq []int
+	switch order {
+	case 0:
+		seq = []int{0, 1}
+	case 1:
+		seq = []int{1, 0}
+	case 2:
+		seq = []int{0}
+	default:
+		seq = []int{1}
+	}
+	rej := vpRange("rejected", -1, 1)
+	for _, k := range seq {
+		reject[hashes[k]] = k == rej
+		err := b.Broadcast(txs[k])
+		if k == rej {
+			vpAssert(err != nil, "rejected-broadcast-reports-failure")
+		} else {
+			vpAssert(err == nil, "accepted-broadcast-succeeds")
+			pending[hashes[k]] = true
+		}
+		reject[hashes[k]] = false
+	}
+	rounds := vpParam("rounds", 2)
+	for r := 0; r < rounds; r++ {
+		if vpRange("confirmOne", 0, 1) == 1 {
+			k := vpRange("confirmTx", 0, 1)
+			b.MarkAsConfirmed(hashes[k])
+			delete(pending, hashes[k])
+			vpReach("confirmed-between-ticks")
+		}
+		before := len(calls)
+		time.Sleep(30 * time.Second)
+		vpQuiesce()
+		vpAssert(len(calls) == before, "no-rebroadcast-between-ticks")
+		time.Sleep(30*time.Second + time.Millisecond)
+		vpQuiesce()
+		got := calls[before:]
+		vpReach("interval-tick")
+		want := 0
+		for k, h := range hashes {
+			n := 0
+			for _, g := range got {
+				if g == h {
+					n++
+				}
+			}
+			if pending[h] {
+				want++
+				vpAssert(n == 1, "pending-tx-is-rebroadcast-once-per-tick")
+			} else {
+				vpAssert(n == 0, "confirmed-rejected-or-unknown-tx-is-not-rebroadcast-by-a-tick")
+			}
+			_ = k
+		}
+		vpAssert(len(got) == want, "tick-rebroadcast-is-exactly-the-pending-set")
+		if pending[hashes[0]] && pending[hashes[1]] {
+			vpReach("parent-and-child-pending-at-a-tick")
+			vpAssert(len(got) == 2 && got[0] == hashes[0] && got[1] == hashes[1], "parent-before-child-at-a-tick")
+		}
+	}
+	b.Stop()
+}
